@@ -1310,6 +1310,12 @@ fn nth_closure(block: &Block, n: usize) -> Option<ExprClosure> {
         found: Option<ExprClosure>,
     }
     impl<'ast> visit::Visit<'ast> for V {
+        fn visit_stmt(&mut self, s: &'ast Stmt) {
+            // closures inside verification hooks do not count
+            if !stmt_is_verif_hook(s) {
+                visit::visit_stmt(self, s);
+            }
+        }
         fn visit_expr_closure(&mut self, c: &'ast ExprClosure) {
             if self.found.is_some() {
                 return;
@@ -1553,7 +1559,7 @@ fn main() {
                     for p in &cfg.pre {
                         writeln!(body, "{}", p).unwrap();
                     }
-                    let mut body_stmts = body_stmts;
+                    let mut body_stmts: Vec<Stmt> = body_stmts.into_iter().filter(|s| !stmt_is_verif_hook(s)).collect();
                     if let Some(n) = cfg.take_stmts {
                         // only the first n statements are translated; the rest of the body is the opaque `tail` expression
                         body_stmts.truncate(n);
